@@ -751,12 +751,16 @@ class World(object):
 
     # -- driving: session seam ---------------------------------------------------------------
     def session_for(self, user, groups=None, eku='client'):
-        k = (user, tuple(groups) if groups is not None else None)
+        """groups='directory': ONE connection of this user whose group list is whatever
+        SLUGS_DIRECTORY says at the time of each request (it may change between requests)."""
+        k = (user, groups if groups == 'directory' else (tuple(groups) if groups is not None else None))
         s = self.sessions.get(k)
         if s is None:
             conn = FakeConnection(make_cert((user,) if user is not None else (), eku))
             auth_settings = None
-            if groups is not None:
+            if groups == 'directory':
+                auth_settings = [('auth:slugs', {'enabled': 'True', 'url': 'http://slugs/D=dir'})]
+            elif groups is not None:
                 auth_settings = [('auth:slugs', {'enabled': 'True', 'url': 'http://slugs/G=%s' % (
                     ','.join(groups))})]
             s = session_mod.KmipSession(self.engine, conn, ('127.0.0.1', 1), name='s-%s' % user,
